@@ -222,7 +222,10 @@ bool SchemaValidator::checkContent (XMLElementDecl* const elemDecl
 
                 if (elemDefaultValue)
                 {
-                    if (XMLString::equals(value, XMLUni::fgZeroLenString))
+                    // The default applies only to an element without any character
+                    // content. The buffer holds the normalized content: white space
+                    // that was collapsed away leaves it empty but sets fTrailing.
+                    if (XMLString::equals(value, XMLUni::fgZeroLenString) && !fTrailing)
                     {
                         fElemIsSpecified = true;
                         // if this element didn't specified any value
